@@ -163,6 +163,19 @@ pub fn run_parse(args: &[Sx]) -> Sx {
         with_type!(args[0].atom(), parse_one, &s, emit);
     })
 }
+pub fn run_misc(args: &[Sx]) -> Sx {
+    with_panic(|emit| match args[0].atom() {
+        "optf" => {
+            let v: Vec<String> = args[1].list().iter().map(|x| x.string()).collect();
+            emit(hex(bed_utils::bed::OptionalFields::from(v).to_string().as_bytes()))
+        }
+        "strand" => emit(match args[1].string().parse::<Strand>() {
+            Ok(s) => Sx::L(vec![a("ok"), hex(s.to_string().as_bytes())]),
+            Err(e) => a(if format!("{:?}", e) == "Empty" { "empty" } else { "invalid" }),
+        }),
+        _ => panic!("glue: misc"),
+    })
+}
 pub fn run_score(args: &[Sx]) -> Sx {
     with_panic(|emit| match args[0].atom() {
         "try" => {
